@@ -294,6 +294,22 @@ pub fn items(tier: Tier) -> Vec<Item> {
     // (attributes of a DISABLED variant are ignored by every derive together with the variant — a float property, `default` on
     // two fields, placeholders on a disabled unit variant all compile; the statement's rules are about variants the derive uses,
     // so such items are not part of the domain; DESIGN.md §6, out-of-domain observations)
+    // R4'': a repeated single-use attribute is an error for EVERY derive that looks at the variant / enum attributes,
+    // not only for the one that uses the value (all of these are rejected on the unchanged tree)
+    let all_variant_readers = ["EnumString", "AsRefStr", "VariantNames", "IntoStaticStr", "Display", "EnumIter", "EnumIs", "EnumTryAs", "EnumTable", "FromRepr", "EnumMessage", "EnumProperty", "EnumCount"];
+    for d in all_variant_readers {
+        for (key, a, b) in [("to_string", "to_string = \"a\"", "to_string = \"b\""), ("message", "message = \"a\"", "message = \"b\""), ("ascii_case_insensitive", "ascii_case_insensitive", "ascii_case_insensitive"), ("disabled", "disabled", "disabled")] {
+            let label = format!("{}: repeated `{}` on a variant (any-reader rule)", d, key);
+            add("repeated-variant-attr", d, label, en(d, "", "", &place(&format!("#[strum({}, {})] X", a, b), 1)), false);
+        }
+    }
+    let all_enum_readers = ["EnumString", "AsRefStr", "VariantNames", "IntoStaticStr", "Display", "EnumIter", "EnumMessage", "EnumProperty", "EnumDiscriminants", "EnumCount", "VariantArray"];
+    for d in all_enum_readers {
+        for (key, a, b) in [("serialize_all", "serialize_all = \"snake_case\"", "serialize_all = \"kebab-case\""), ("prefix", "prefix = \"a\"", "prefix = \"b\"")] {
+            add("repeated-enum-attr", d, format!("{}: repeated enum-level `{}` (any-reader rule)", d, key), en(d, &format!("#[strum({}, {})]\n", a, b), "", &place("X", 1)), false);
+        }
+        add("unknown-style", d, format!("{}: serialize_all = \"nope\" (any-reader rule)", d), en(d, "#[strum(serialize_all = \"nope\")]\n", "", &place("X", 1)), false);
+    }
     // R12 malformed attribute VALUES: never a panic, never silently accepted (the statement's general clause)
     for (lab, src) in [
         ("crate = \"my-strum\"", "#[derive(strum::EnumString)]\n#[strum(crate = \"my-strum\")]\npub enum E { A }\n"),
